@@ -187,10 +187,56 @@ def m_guards(ctx, case):
     ctx.hit("guards")
 
 
-MONITORS = {"identity": m_identity, "surv": m_surv, "allcall": m_allcall, "guards": m_guards}
+def m_volume(ctx, case):
+    """one long-running process: after n OTHER identity replies (70000 in the quick tier, 1.1 million - more than a 20-bit slot
+    count - in the thorough tier) the first ones still give their own squawk; calls are made directly (no recording)"""
+    import random as _r
+    from pyModeS import common, surv
+    rng = _r.Random(case["vseed"])
+    n = case["n"]
+
+    def mkf(k):
+        a, b, c, d = rng.randrange(8), rng.randrange(8), rng.randrange(8), rng.randrange(8)
+        df = 5 if k & 1 else 21
+        code = ralt.identity_code13(a, b, c, d, rng.randrange(2))
+        nb = 56 if df == 5 else 112
+        x = (df << (nb - 5)) | (rng.getrandbits(14) << (nb - 19)) | (code << (nb - 32)) | rng.getrandbits(nb - 32)
+        return "%0*X" % (nb // 4, x), "%d%d%d%d" % (a, b, c, d)
+    first = []
+    for k in range(n):
+        hx, exp = mkf(k)
+        try:
+            got = common.idcode(hx)
+        except Exception as e:  # noqa
+            got = "raised " + type(e).__name__
+        if got != exp:
+            ctx.violation("squawk-wrong-digits", frame=hx, expected=exp, observed=got, api="common.idcode", after_calls=k)
+            return
+        if k < 2000:
+            first.append((hx, exp))
+    ctx.ev(n)
+    for hx, exp in first:
+        r = call(common.idcode, hx)
+        r2 = call(surv.identity, hx) if len(hx) == 14 else r      # surv.identity is the DF5 reader
+        ctx.ev(2)
+        if r != ("ok", exp) or r2 != ("ok", exp):
+            ctx.violation("identity-decoded-differently-after-%dk-others" % (n // 1000), frame=hx, expected=exp, idcode=r[1:], identity=r2[1:])
+            return
+    ctx.hit("first_identity_replies_again_after_%s_others" % ("a_million" if n > 1000000 else "70k"))
+    ctx.nontrivial(("vol", case["vseed"]))
+
+
+NO_OBSERVE = ("volume",)
+MONITORS = {"volume": m_volume, "identity": m_identity, "surv": m_surv, "allcall": m_allcall, "guards": m_guards}
 
 
 def cases(ctx):
+    if ctx.mine(11):
+        yield "volume", {"n": 70000 if ctx.tier == "quick" else 1100000, "vseed": ctx.seed * 131 + 7}
+    yield from _cases(ctx)
+
+
+def _cases(ctx):
     quick = ctx.tier == "quick"
     i = 0
     for a in range(8):
